@@ -21,7 +21,7 @@ def corpus(kind="all", generated=True):
     if generated:
         from . import gramgen
         from lib.common import seed, tier
-        n = 40 if tier() == "quick" else 300
+        n = 40 if tier() == "quick" else 150
         d = os.path.join(BUILD, "gen", "gram", "s%d_%s" % (seed(), tier()))
         files += gramgen.generate(d, seed(), {"ebnf": n, "prefix": n, "look": n, "lr": n // 2, "ebnf_lr": n // 2})
     return files
